@@ -25,8 +25,9 @@ connection runs `reuseConnection`, which is two atomic steps (the keyed RW mutex
   Stale reaps are environment events: a state is `final` when no negotiation step and no due reap is left,
   whether or not a stale reap is still possible.
 
-Every connection remembers what closed it FIRST (`Cl`): the negotiation and its reaps (`neg`) or a stale reap
-(`late`); "a reused connection is never closed by the negotiation" is judged on `neg`.
+Every connection remembers what closed it FIRST (`Cl`): the negotiation (`neg`) or a stale reap (`late`); the
+closes made by a reap count as whatever closed the connection whose death triggered that reap. "A reused
+connection is never closed by the negotiation" is judged on `neg`; without stale reaps every close is `neg`.
 
 `snapshot`, `decide` and `reap` are parameters (`Table`); `genTable` is the translation of the current Go source.
 Core Lean only.
@@ -70,8 +71,8 @@ def genTable : Table := ⟨Gen.C41.snapshot, Gen.C41.decide, Gen.C41.reap⟩
 /-- what closed a connection first -/
 inductive Cl where
   | open
-  | neg     -- the negotiation (508), the accept loop (406) or a reap that follows the negotiation
-  | late    -- a stale reap
+  | neg     -- the negotiation (508), the accept loop (406), or the reap of a connection that was closed that way
+  | late    -- a stale reap, or the reap of a connection that was closed that way
 deriving DecidableEq, Repr
 
 /-- what `reuseConnection` returned -/
@@ -167,7 +168,8 @@ def entryDir : Entry → Dir
   | none => .incoming      -- never read by the generated table when the entry is absent
 
 /-- `reapPeer` at side `x` (atomic: the key's Lock): `trigger` = the connection whose death started it (`none`
-for the stale reap of a connection outside the model, which is closed already), `by_` = what the closes count as -/
+for the stale reap of a connection outside the model, which is closed already), `by_` = what the closes count as
+(a reap inherits it from the death that triggered it) -/
 def reapPeer (T : Table) (s : St) (x : Side) (trigger : Option Conn) (by_ : Cl) : St :=
   let ent := s.cache x
   let a := T.reap ent.isSome
@@ -207,10 +209,10 @@ def step (T : Table) (s : St) : Step → St
   | .reap i =>
     match s.pc i with
     | .done st .fresh false =>
-      (reapPeer T s i.side (some i.conn) .neg).setPc i (.done st .fresh true)
+      (reapPeer T s i.side (some i.conn) (s.cl i.conn)).setPc i (.done st .fresh true)
     | _ => s
   | .reapE x =>
-    let s := reapPeer T s x (some .e) .neg
+    let s := reapPeer T s x (some .e) s.clE
     match x with
     | .P => { s with watchP := false } | .Q => { s with watchQ := false }
   | .late x =>
